@@ -1,5 +1,5 @@
 CONSTANTS
-  Want = {"C10_StoreContentAddressed", "C10_PlannedContent", "C10_BadTransferNeverLands", "C10_MissingReported", "C10_StagedWithinSizeLimit", "C10_FittingTransferStaged",
+  Want = {"C10_StoreContentAddressed", "C10_PlannedContent", "C10_BadTransferNeverLands", "C10_MissingReported", "C10_StagedWithinSizeLimit", "C10_FittingTransferStaged", "C10_WriteFaultsSurface",
           "C41_StageLeavesRoot"}
   WhatIf = "none"
 SPECIFICATION TSpec
